@@ -30,7 +30,7 @@ JudgeOne(i) ==
       dep == [k \in { <<x.r, x.v>> : x \in Seq2Set(o.resolved) } |->
                 (CHOOSE y \in Seq2Set(o.resolved) : <<y.r, y.v>> = k).dep]
       anyErr == \E j \in DOMAIN o.results : o.results[j].err
-      x == [lookup_bad |-> o.lookup_bad, early_open |-> o.early_open, tmp_left |-> o.tmp_left,
+      x == [conc_same |-> o.conc_same, conc_why |-> o.conc_why, lookup_bad |-> o.lookup_bad, early_open |-> o.early_open, tmp_left |-> o.tmp_left,
             manifest_same |-> o.manifest_same, canon_same |-> o.canon_same, dirs_ok |-> o.dirs_ok,
             unscripted |-> o.unscripted, diags_ok |-> o.diags_ok, reopen_diff |-> o.reopen_diff, archive_diff |-> o.archive_diff]
       v == VerdictW(W, adds, o.events, o.calls, pk, res, dep, anyErr, o.refused_after, o.bundle_ok, x)
